@@ -20,6 +20,7 @@ for c in $CHECKS; do case $c in C08|C10|C13|C14|C15|C18|C19) NEEDBIN=1;; C07) NE
 [ $NEEDRACE = 1 ] && ( cd $H && go build -race -modfile=$S/go.mod -tags verif -o $S/bin/check-race ./cmd/check ) && ( cd $S/repo && go build -race -tags verif -o $S/bin/bazel-remote-race . )
 for c in $CHECKS; do
   out=$(VERIF_ROOT=$S/root VERIF_BIN=$S/bin VERIF_SEED=${VERIF_SEED:-1} timeout 3000 $S/bin/check $c quick 2>&1); rc=$?
+  [ -n "$MM_FULL" ] && echo "$out" | grep -E "^(INCONCLUSIVE|VIOLATION|SUMMARY)" | head -20
   keys=$(echo "$out" | grep -E "^  key=" | sort | uniq -c | sort -rn | head -3 | sed 's/^ *//' | tr '\n' ';')
   echo "RESULT $M vs $c: rc=$rc $keys" | tee -a /verif/seeded/matrix_runs.txt
 done
